@@ -556,7 +556,18 @@ class PVLParser(object):
                 "an Assignment-Statement."
             )
 
-        self.parse_around_equals(tokens)
+        try:
+            self.parse_around_equals(tokens)
+        except LexerError:
+            raise
+        except ValueError:
+            # The Parameter Name has been consumed, so this is not
+            # a mismatch on the first token that callers can recover
+            # from by trying another production.
+            tokens.throw(
+                ValueError,
+                f'Expecting an equals sign after "{parameter_name}" ',
+            )
 
         try:
             # print(f'parameter name: {parameter_name}')
